@@ -6,6 +6,8 @@
 (*   <<"f", n, d>>     float as the exact rational n/d in lowest terms, d a power of two  *)
 (*                     (every float64 is such a dyadic rational; + - * are closed on them *)
 (*                     and IEEE division is exact whenever the quotient is dyadic again)  *)
+(*   <<"F", k>>        the other float64 values: k = "nan", "+inf", "-inf", "-0" (IEEE 754  *)
+(*                     arithmetic, comparison and the math built-ins are pinned on them)  *)
 (*   <<"s", <<c..>>>>  string as its sequence of byte values                              *)
 (*   <<"b", TRUE>>     bool                                                               *)
 (*   <<"d", ms>>       duration in whole milliseconds                                     *)
@@ -28,7 +30,7 @@ EXTENDS Integers, Sequences, FiniteSets, TLC
 Err == <<"E">>
 IsErr(v) == v[1] = "E"
 IsAny(v) == v[1] \in {"?", "!"}
-Tag(v) == IF IsAny(v) THEN v[2] ELSE v[1]
+Tag(v) == IF IsAny(v) THEN v[2] ELSE IF v[1] = "F" THEN "f" ELSE v[1]
 AnyOf(t) == <<"?", t>>
 NonErr(t) == <<"!", t>>
 MkI(n) == <<"i", n>>
@@ -60,11 +62,92 @@ Num(v) == IF v[1] = "i" THEN v[2] ELSE v[2]
 Den(v) == IF v[1] = "i" THEN 1 ELSE v[3]
 FNeg(a) == <<"f", -a[2], a[3]>>
 FAbs(a) == <<"f", Abs(a[2]), a[3]>>
-(* sign of a - b for ints and floats alike (an int compared with a float is converted exactly) *)
+(* sign of a - b for ints and finite floats alike (an int compared with a float is converted exactly) *)
 NumCmp(a, b) == LET x == IF Den(a) = Den(b) THEN Num(a) - Num(b) ELSE Num(a) * Den(b) - Num(b) * Den(a)
                 IN IF x < 0 THEN -1 ELSE IF x > 0 THEN 1 ELSE 0
 FFloor(a) == a[2] \div a[3]                        \* TLA+ \div floors
 FTrunc(a) == TDiv(a[2], a[3])
+
+(* ---------------- the whole of float64: NaN, infinities, signed zero (IEEE 754) ---------------- *)
+NaN == <<"F", "nan">>
+PInf == <<"F", "+inf">>
+NInf == <<"F", "-inf">>
+NZero == <<"F", "-0">>
+PZero == <<"f", 0, 1>>
+IsSp(v) == v[1] = "F"
+IsNaN(v) == IsSp(v) /\ v[2] = "nan"
+IsInf(v) == IsSp(v) /\ v[2] \in {"+inf", "-inf"}
+IsZero(v) == IF IsSp(v) THEN v[2] = "-0" ELSE v[2] = 0                 \* for ints and floats
+SBit(v) == IF IsSp(v) THEN v[2] \in {"-inf", "-0"} ELSE v[2] < 0        \* the sign bit (of an int: negative)
+MkZ(neg) == IF neg THEN NZero ELSE PZero
+MkInf(neg) == IF neg THEN NInf ELSE PInf
+Fin(v) == IF v[1] = "i" THEN <<"f", v[2], 1>> ELSE IF IsSp(v) THEN PZero ELSE v    \* the rational of a finite value (-0 is 0)
+ENeg(v) == IF IsNaN(v) THEN NaN ELSE IF IsInf(v) THEN MkInf(~SBit(v)) ELSE IF IsZero(v) THEN MkZ(~SBit(v)) ELSE FNeg(v)
+ESmall(a) == IsSp(a) \/ (Abs(a[2]) <= 23170 /\ a[3] <= 23170)
+(* -1, 0, 1 for two values that are not NaN (ints, floats, infinities; the zeros are equal) *)
+ECmp(a, b) ==
+    IF IsInf(a) \/ IsInf(b)
+    THEN (IF IsInf(a) /\ IsInf(b) /\ a[2] = b[2] THEN 0 ELSE IF (IsInf(a) /\ a[2] = "-inf") \/ (IsInf(b) /\ b[2] = "+inf") THEN -1 ELSE 1)
+    ELSE NumCmp(Fin(a), Fin(b))
+EAdd(a, b) ==
+    IF IsNaN(a) \/ IsNaN(b) THEN NaN
+    ELSE IF IsInf(a) /\ IsInf(b) THEN (IF a = b THEN a ELSE NaN)
+    ELSE IF IsInf(a) THEN a ELSE IF IsInf(b) THEN b
+    ELSE IF IsZero(a) /\ IsZero(b) THEN MkZ(SBit(a) /\ SBit(b))
+    ELSE LET x == Fin(a)  y == Fin(b) IN MkF(x[2] * y[3] + y[2] * x[3], x[3] * y[3])       \* x + (-x) is +0
+ESub(a, b) == EAdd(a, ENeg(b))
+EMul(a, b) ==
+    LET neg == SBit(a) # SBit(b) IN
+    IF IsNaN(a) \/ IsNaN(b) THEN NaN
+    ELSE IF IsInf(a) \/ IsInf(b) THEN (IF IsZero(a) \/ IsZero(b) THEN NaN ELSE MkInf(neg))
+    ELSE IF IsZero(a) \/ IsZero(b) THEN MkZ(neg)
+    ELSE LET x == Fin(a)  y == Fin(b) IN MkF(x[2] * y[2], x[3] * y[3])
+EDiv(a, b) ==
+    LET neg == SBit(a) # SBit(b) IN
+    IF IsNaN(a) \/ IsNaN(b) THEN NaN
+    ELSE IF IsInf(a) THEN (IF IsInf(b) THEN NaN ELSE MkInf(neg))
+    ELSE IF IsInf(b) THEN MkZ(neg)
+    ELSE IF IsZero(b) THEN (IF IsZero(a) THEN NaN ELSE MkInf(neg))
+    ELSE IF IsZero(a) THEN MkZ(neg)
+    ELSE LET x == Fin(a)  y == Fin(b)  q == MkF(x[2] * y[3], x[3] * y[2]) IN
+         IF IsPow2(q[3]) THEN q ELSE NonErr("f")       \* an inexact quotient: some float (a division of floats is never an error)
+ECmpHolds(op, a, b) ==       \* every comparison with NaN is false, except != which is true
+    IF IsNaN(a) \/ IsNaN(b) THEN op = "!="
+    ELSE LET c == ECmp(a, b) IN
+         CASE op = "==" -> c = 0 [] op = "!=" -> c # 0 [] op = "<" -> c < 0
+           [] op = "<=" -> c <= 0 [] op = ">" -> c > 0 [] op = ">=" -> c >= 0
+(* math.Floor/Ceil/Trunc/Abs/Sqrt/Log/Min/Max/Mod *)
+RECURSIVE ISqrt(_, _)
+ISqrt(n, k) == IF k * k >= n THEN k ELSE ISqrt(n, k + 1)
+IsSquare(n) == n <= 1000000 /\ ISqrt(n, 0) * ISqrt(n, 0) = n
+ERound(kind, a) ==       \* kind: "floor" | "ceil" | "trunc"; specials and zeros come back as they are, a zero result keeps the sign
+    IF IsSp(a) THEN a
+    ELSE LET k == CASE kind = "floor" -> FFloor(a) [] kind = "ceil" -> -FFloor(FNeg(a)) [] kind = "trunc" -> FTrunc(a) IN
+         IF k = 0 THEN MkZ(SBit(a)) ELSE <<"f", k, 1>>
+EAbs(a) == IF IsNaN(a) THEN NaN ELSE IF IsInf(a) THEN PInf ELSE IF IsZero(a) THEN PZero ELSE FAbs(a)
+ESqrt(a) ==
+    IF IsNaN(a) \/ a = NInf THEN NaN ELSE IF a = PInf \/ IsZero(a) THEN a
+    ELSE IF a[2] < 0 THEN NaN
+    ELSE IF IsSquare(a[2]) /\ IsSquare(a[3]) THEN <<"f", ISqrt(a[2], 0), ISqrt(a[3], 0)>> ELSE NonErr("f")
+ELog(a) ==
+    IF IsNaN(a) \/ a = NInf THEN NaN ELSE IF a = PInf THEN PInf ELSE IF IsZero(a) THEN NInf
+    ELSE IF a[2] < 0 THEN NaN ELSE IF a = <<"f", 1, 1>> THEN PZero ELSE NonErr("f")
+EMin(a, b) ==      \* math.Min: -Inf wins over NaN, NaN over the rest, -0 is below +0
+    IF a = NInf \/ b = NInf THEN NInf ELSE IF IsNaN(a) \/ IsNaN(b) THEN NaN
+    ELSE IF IsZero(a) /\ IsZero(b) THEN MkZ(SBit(a) \/ SBit(b))
+    ELSE IF ECmp(a, b) < 0 THEN a ELSE b
+EMax(a, b) ==
+    IF a = PInf \/ b = PInf THEN PInf ELSE IF IsNaN(a) \/ IsNaN(b) THEN NaN
+    ELSE IF IsZero(a) /\ IsZero(b) THEN MkZ(SBit(a) /\ SBit(b))
+    ELSE IF ECmp(a, b) > 0 THEN a ELSE b
+EMod(a, b) ==      \* math.Mod(x, y): NaN for x infinite, y zero or a NaN operand; x for y infinite; else x - y * trunc(x / y) with the sign of x
+    IF IsNaN(a) \/ IsNaN(b) \/ IsInf(a) \/ IsZero(b) THEN NaN
+    ELSE IF IsInf(b) THEN a
+    ELSE LET x == Fin(a)  y == Fin(b)
+             xn == Abs(x[2]) * y[3]
+             yn == Abs(y[2]) * x[3]
+             rn == xn % yn
+         IN IF rn = 0 THEN MkZ(SBit(a)) ELSE MkF(IF SBit(a) THEN -rn ELSE rn, x[3] * y[3])
 
 (* ---------------- strings as byte sequences ---------------- *)
 RECURSIVE SeqCmp(_, _)
@@ -112,8 +195,7 @@ FloatToStr(a) ==   \* strconv.FormatFloat(a, 'f', -1, 64) for halves and quarter
     LET sgn == IF a[2] < 0 THEN <<45>> ELSE <<>>
         ip == Digits(Abs(a[2]) \div a[3])
         r == Abs(a[2]) % a[3]
-    IN CASE a[2] = 0 -> AnyOf("s")                \* "0" or "-0": the model has no signed zero
-         [] a[3] = 1 -> MkS(sgn \o ip)
+    IN CASE a[3] = 1 -> MkS(sgn \o ip)
          [] a[3] = 2 -> MkS(sgn \o ip \o <<46, 53>>)
          [] a[3] = 4 -> MkS(sgn \o ip \o (IF r = 1 THEN <<46, 50, 53>> ELSE <<46, 55, 53>>))
          [] a[3] = 8 -> MkS(sgn \o ip \o <<46>> \o Digits(r * 125))               \* .125 .375 .625 .875
@@ -182,7 +264,7 @@ DecFloat(c, neg) ==           \* digits[.digits][(e|E)[+-]digits] | .digits[...]
        ELSE LET z == StripZeros(sm[2] \o sm[3])
                 scale == (IF hasE THEN ExpVal(ex) ELSE 0) - Len(sm[3])
                 mag == Len(z) + scale                      \* the value is in [10^(mag-1), 10^mag)
-            IN IF z = <<48>> THEN <<"f", 0, 1>>
+            IN IF z = <<48>> THEN MkZ(neg)
                ELSE IF mag > 309 THEN Err                   \* beyond the largest float64: an error (ErrRange)
                ELSE IF mag = 309 THEN AnyOf("f")
                ELSE IF Len(z) > 9 \/ mag > 9 \/ scale < -9 THEN NonErr("f")        \* (underflow gives 0 or a denormal, no error)
@@ -198,7 +280,7 @@ HexFloat(h, neg) ==           \* after 0x: hexdigits[.hexdigits](p|P)[+-]digits,
        ELSE LET z == StripZeros(sm[2] \o sm[3])
                 shift == ExpVal(ex) - 4 * Len(sm[3])
                 mag == 4 * Len(z) + shift                   \* the value is below 2^mag and at least 2^(mag-4)
-            IN IF z = <<48>> THEN <<"f", 0, 1>>
+            IN IF z = <<48>> THEN MkZ(neg)
                ELSE IF mag > 1028 THEN Err
                ELSE IF mag > 1020 THEN AnyOf("f")
                ELSE IF Len(z) > 6 \/ mag > 29 \/ shift < -29 THEN NonErr("f")
@@ -210,7 +292,8 @@ HexFloat(h, neg) ==           \* after 0x: hexdigits[.hexdigits](p|P)[+-]digits,
 StrInf == { <<105, 110, 102>>, <<105, 110, 102, 105, 110, 105, 116, 121>> }
 ParseFloatStr(s) ==
     LET r == StripSign(s) IN
-    IF (<<>> \o Lower(r)) \in StrInf \/ (<<>> \o Lower(s)) = <<110, 97, 110>> THEN NonErr("f")
+    IF (<<>> \o Lower(r)) \in StrInf THEN MkInf(IsNeg(s))
+    ELSE IF (<<>> \o Lower(s)) = <<110, 97, 110>> THEN NaN
     ELSE IF ~UnderscoreOK(s) THEN Err
     ELSE LET c == SelectSeq(r, NotUnderscore) IN
          IF Len(c) >= 2 /\ c[1] = 48 /\ Lc(c[2]) = 120 THEN HexFloat(SubSeq(c, 3, Len(c)), IsNeg(s))
@@ -248,9 +331,10 @@ ParseDurStr(s) ==
        ELSE MkD(IF IsNeg(s) THEN -t[2] ELSE t[2])
 
 (* named regular expressions (regex engine semantics are out of scope; these decide typing/dispatch) *)
-RegexNames == {"a", "^a", "b$", "^$"}
+RegexNames == {"a", "^a", "b$", "^$", "1"}
 RegexMatch(name, s) ==
     CASE name = "a" -> Contains(s, <<97>>)
+      [] name = "1" -> Contains(s, <<49>>)
       [] name = "^a" -> HasPrefix(s, <<97>>)
       [] name = "b$" -> HasSuffix(s, <<98>>)
       [] name = "^$" -> s = <<>>
@@ -287,10 +371,15 @@ CmpHolds(op, c) ==
 FSmall(a, b) == Abs(a[2]) <= 23170 /\ a[3] <= 23170 /\ Abs(b[2]) <= 23170 /\ b[3] <= 23170
 MulFits(a, b) == b = 0 \/ Abs(a) <= 1073741823 \div Abs(b)      \* the product stays inside the model's integers
 DurScale(ms, n, d) ==
-    IF d = 0 \/ ~MulFits(ms, n) THEN AnyOf("d")
+    IF d = 0 \/ ~MulFits(ms, n) THEN NonErr("d")
     ELSE LET x == IF d < 0 THEN -(ms * n) ELSE ms * n
              y == Abs(d)
-         IN IF x % y = 0 THEN MkD(x \div y) ELSE AnyOf("d")
+         IN IF x % y = 0 THEN MkD(x \div y) ELSE NonErr("d")        \* not a whole number of ms: some duration
+
+(* duration (ms) scaled by a float: time.Duration(float64(d) * f) / time.Duration(float64(d) / f); the conversion of NaN or an *)
+(* infinity to int64 is not defined by Go: some duration, not an error                                                          *)
+DurTimes(ms, f) == IF IsNaN(f) \/ IsInf(f) THEN NonErr("d") ELSE IF IsZero(f) THEN MkD(0) ELSE DurScale(ms, f[2], f[3])
+DurOver(ms, f) == IF IsNaN(f) \/ IsZero(f) THEN NonErr("d") ELSE IF IsInf(f) THEN MkD(0) ELSE DurScale(ms, f[3], f[2])
 
 (* a op b for two proper values (no error, not missing) *)
 Bin(op, a, b) ==
@@ -299,36 +388,36 @@ Bin(op, a, b) ==
         rt == BinType(op, ta, tb)
     IN IF rt = "inv" THEN Err
        ELSE IF IsAny(a) \/ IsAny(b) THEN AnyOf(rt)
-       ELSE IF ta = "f" /\ tb = "f" /\ op \in Arith /\ ~FSmall(a, b) THEN AnyOf("f")     \* beyond the model's exact rationals
+       ELSE IF ta = "f" /\ tb = "f" /\ op \in Arith /\ ~(ESmall(a) /\ ESmall(b)) THEN NonErr("f")     \* beyond the model's exact rationals
        ELSE CASE op \in Logic -> MkB(IF op = "AND" THEN a[2] /\ b[2] ELSE a[2] \/ b[2])
               [] op \in {"=~", "!~"} -> MkB(RegexMatch(b[2], a[2]) = (op = "=~"))
               [] op \in EqOps \cup OrdOps ->
-                    IF ta \in NumT THEN MkB(CmpHolds(op, NumCmp(a, b)))
+                    IF ta \in NumT THEN MkB(ECmpHolds(op, a, b))
                     ELSE IF ta = "s" THEN MkB(CmpHolds(op, SeqCmp(a[2], b[2])))
                     ELSE IF ta = "d" THEN MkB(CmpHolds(op, IF a[2] < b[2] THEN -1 ELSE IF a[2] > b[2] THEN 1 ELSE 0))
                     ELSE MkB((a[2] = b[2]) = (op = "=="))
               [] op = "+" ->
                    (CASE ta = "i" -> MkI(a[2] + b[2])
-                      [] ta = "f" -> MkF(a[2] * b[3] + b[2] * a[3], a[3] * b[3])
+                      [] ta = "f" -> EAdd(a, b)
                       [] ta = "s" -> MkS(a[2] \o b[2])
                       [] ta = "d" -> MkD(a[2] + b[2]))
               [] op = "-" ->
                    (CASE ta = "i" -> MkI(a[2] - b[2])
-                      [] ta = "f" -> MkF(a[2] * b[3] - b[2] * a[3], a[3] * b[3])
+                      [] ta = "f" -> ESub(a, b)
                       [] ta = "d" -> MkD(a[2] - b[2]))
               [] op = "*" ->
                    (CASE ta = "i" /\ tb = "i" -> IF MulFits(a[2], b[2]) THEN MkI(a[2] * b[2]) ELSE AnyOf("i")
-                      [] ta = "f" /\ tb = "f" -> MkF(a[2] * b[2], a[3] * b[3])
+                      [] ta = "f" /\ tb = "f" -> EMul(a, b)
                       [] ta = "d" /\ tb = "i" -> IF MulFits(a[2], b[2]) THEN MkD(a[2] * b[2]) ELSE AnyOf("d")
                       [] ta = "i" /\ tb = "d" -> IF MulFits(a[2], b[2]) THEN MkD(a[2] * b[2]) ELSE AnyOf("d")
-                      [] ta = "d" /\ tb = "f" -> DurScale(a[2], b[2], b[3])
-                      [] ta = "f" /\ tb = "d" -> DurScale(b[2], a[2], a[3]))
+                      [] ta = "d" /\ tb = "f" -> DurTimes(a[2], b)
+                      [] ta = "f" /\ tb = "d" -> DurTimes(b[2], a))
               [] op = "/" ->
                    (CASE ta = "i" /\ tb = "i" -> IF b[2] = 0 THEN Err ELSE MkI(TDiv(a[2], b[2]))
-                      [] ta = "f" /\ tb = "f" -> IF b[2] = 0 THEN AnyOf("f") ELSE MkFx(a[2] * b[3], a[3] * b[2])
+                      [] ta = "f" /\ tb = "f" -> EDiv(a, b)
                       [] ta = "d" /\ tb = "i" -> IF b[2] = 0 THEN Err
-                                                 ELSE IF a[2] % Abs(b[2]) = 0 THEN MkD(TDiv(a[2], b[2])) ELSE AnyOf("d")
-                      [] ta = "d" /\ tb = "f" -> IF b[2] = 0 THEN AnyOf("d") ELSE DurScale(a[2], b[3], b[2])
+                                                 ELSE IF a[2] % Abs(b[2]) = 0 THEN MkD(TDiv(a[2], b[2])) ELSE NonErr("d")
+                      [] ta = "d" /\ tb = "f" -> DurOver(a[2], b)
                       [] ta = "d" /\ tb = "d" -> IF b[2] = 0 THEN Err ELSE MkI(TDiv(a[2], b[2])))
               [] op = "%" -> IF b[2] = 0 THEN Err ELSE MkI(TMod(a[2], b[2]))
 
@@ -338,28 +427,29 @@ Un(op, v) ==
     ELSE CASE Tag(v) \notin {"i", "f", "d"} -> Err
            [] IsAny(v) -> v
            [] v[1] = "i" -> MkI(-v[2])
-           [] v[1] = "f" -> FNeg(v)
+           [] Tag(v) = "f" -> ENeg(v)
            [] v[1] = "d" -> MkD(-v[2])
 
 (* ---------------- built-in functions ---------------- *)
 (* state of the stateful functions of one expression instance (one group):                   *)
 (*   c  = calls of count() so far, sp = <<>> or <<min, max>> of spread(), sg = arguments     *)
 (*   sigma() has seen (its value is not decided by the model, only its dependence on sg).    *)
-FS0 == [c |-> 0, sp |-> <<>>, sg |-> <<>>]
+FS0 == [c |-> 0, sp |-> <<PInf, NInf>>, sg |-> <<>>]
 StatefulFuncs == {"count", "spread", "sigma"}
 
 ToInt(v) ==
     CASE IsAny(v) -> AnyOf("i")
       [] v[1] = "i" -> v
+      [] v[1] = "F" -> IF IsZero(v) THEN MkI(0) ELSE NonErr("i")     \* int64(NaN), int64(+-Inf) are not defined by Go: some int
       [] v[1] = "f" -> MkI(FTrunc(v))
       [] v[1] = "s" -> ParseIntDec(v[2])
       [] v[1] = "b" -> MkI(IF v[2] THEN 1 ELSE 0)
-      [] v[1] = "d" -> AnyOf("i")       \* not decided: the function converts to nanoseconds, its signature does not list durations
+      [] v[1] = "d" -> IF v[2] = 0 THEN MkI(0) ELSE NonErr("i")       \* nanoseconds (beyond the model's integers)
       [] OTHER -> Err
 ToFloat(v) ==
     CASE IsAny(v) -> AnyOf("f")
       [] v[1] = "i" -> <<"f", v[2], 1>>
-      [] v[1] = "f" -> v
+      [] v[1] \in {"f", "F"} -> v
       [] v[1] = "s" -> ParseFloatStr(v[2])
       [] v[1] = "b" -> <<"f", IF v[2] THEN 1 ELSE 0, 1>>
       [] OTHER -> Err
@@ -368,12 +458,15 @@ ToBool(v) ==
       [] v[1] = "b" -> v
       [] v[1] = "s" -> IF v[2] \in StrTrue THEN True ELSE IF v[2] \in StrFalse THEN False ELSE Err
       [] v[1] = "i" -> IF v[2] = 1 THEN True ELSE IF v[2] = 0 THEN False ELSE Err
+      [] v[1] = "F" -> IF IsZero(v) THEN False ELSE Err                \* NaN and the infinities are neither 0 nor 1
       [] v[1] = "f" -> IF v = <<"f", 1, 1>> THEN True ELSE IF v[2] = 0 THEN False ELSE Err
       [] OTHER -> Err
 ToStr(v) ==
     CASE IsAny(v) -> AnyOf("s")
       [] v[1] = "s" -> v
       [] v[1] = "i" -> MkS(IntToStr(v[2]))
+      [] v[1] = "F" -> MkS(CASE v[2] = "nan" -> <<78, 97, 78>> [] v[2] = "+inf" -> <<43, 73, 110, 102>>
+                             [] v[2] = "-inf" -> <<45, 73, 110, 102>> [] v[2] = "-0" -> <<45, 48>>)
       [] v[1] = "f" -> FloatToStr(v)
       [] v[1] = "b" -> MkS(IF v[2] THEN <<116, 114, 117, 101>> ELSE <<102, 97, 108, 115, 101>>)
       [] v[1] = "d" -> MkS(DurToStr(v[2]))
@@ -382,35 +475,43 @@ ToStr(v) ==
 AllTags(a, tags) == Len(a) = Len(tags) /\ \A i \in DOMAIN a : Tag(a[i]) = tags[i]
 SomeAny(a) == \E i \in DOMAIN a : IsAny(a[i])
 
-(* stateless call with proper argument values; the result type is given for tainted arguments *)
+(* A stateless function applied to argument values (Func.Call): what the function itself does with them.  Which   *)
+(* argument types a call may have at all is a matter of its signature (SigType), checked by whoever types the call *)
+(* first (Eval, EvalPredicate, an enclosing operator or call) - the functions themselves accept a little more:      *)
+(* duration(1s, x) is 1s, duration("1s") parses, int(1s) gives nanoseconds, isPresent takes any value, count any     *)
+(* arguments; that only shows in a typed call (EvalInt ..) made on a call node without asking Type first.            *)
 Pure(name, a) ==
     CASE name = "int" -> IF Len(a) = 1 THEN ToInt(a[1]) ELSE Err
       [] name = "float" -> IF Len(a) = 1 THEN ToFloat(a[1]) ELSE Err
       [] name = "bool" -> IF Len(a) = 1 THEN ToBool(a[1]) ELSE Err
       [] name = "string" -> IF Len(a) = 1 THEN ToStr(a[1]) ELSE Err
       [] name = "duration" ->
-            IF AllTags(a, <<"d">>) THEN a[1]
-            ELSE IF AllTags(a, <<"s">>)          \* the function parses it but its signature does not list (string): an error, or the parsed value
-                 THEN (IF IsAny(a[1]) \/ ~IsErr(ParseDurStr(a[1][2])) THEN AnyOf("d") ELSE Err)
-            ELSE IF AllTags(a, <<"i", "d">>) THEN (IF SomeAny(a) THEN AnyOf("d") ELSE IF MulFits(a[1][2], a[2][2]) THEN MkD(a[1][2] * a[2][2]) ELSE NonErr("d"))
-            ELSE IF AllTags(a, <<"f", "d">>) THEN (IF SomeAny(a) THEN AnyOf("d") ELSE DurScale(a[2][2], a[1][2], a[1][3]))
-            ELSE IF AllTags(a, <<"s", "d">>)     \* the string is parsed as a duration literal, the unit is not used
-                 THEN (IF SomeAny(a) THEN AnyOf("d") ELSE ParseDurStr(a[1][2]))
-            ELSE Err
-      [] name \in {"abs", "floor", "ceil"} ->
+            IF Len(a) \notin {1, 2} THEN Err
+            ELSE IF IsAny(a[1]) THEN AnyOf("d")
+            ELSE IF Tag(a[1]) = "d" THEN a[1]                                        \* whatever the second argument is
+            ELSE IF Tag(a[1]) = "s" THEN ParseDurStr(a[1][2])                          \* a duration literal, the unit is not used
+            ELSE IF Tag(a[1]) \notin {"i", "f"} \/ Len(a) # 2 \/ Tag(a[2]) # "d" THEN Err
+            ELSE IF IsAny(a[2]) THEN AnyOf("d")
+            ELSE IF Tag(a[1]) = "i" THEN (IF MulFits(a[1][2], a[2][2]) THEN MkD(a[1][2] * a[2][2]) ELSE NonErr("d"))
+            ELSE DurTimes(a[2][2], a[1])
+      [] name \in {"abs", "floor", "ceil", "trunc", "sqrt", "log"} ->
             IF ~AllTags(a, <<"f">>) THEN Err
             ELSE IF SomeAny(a) THEN AnyOf("f")
-            ELSE (CASE name = "abs" -> FAbs(a[1])
-                    [] name = "floor" -> <<"f", FFloor(a[1]), 1>>
-                    [] name = "ceil" -> <<"f", -FFloor(FNeg(a[1])), 1>>)
-      [] name \in {"min", "max"} ->
+            ELSE IF ~ESmall(a[1]) THEN NonErr("f")
+            ELSE (CASE name = "abs" -> EAbs(a[1])
+                    [] name \in {"floor", "ceil", "trunc"} -> ERound(name, a[1])
+                    [] name = "sqrt" -> ESqrt(a[1])
+                    [] name = "log" -> ELog(a[1]))
+      [] name \in {"min", "max", "mod"} ->
             IF ~AllTags(a, <<"f", "f">>) THEN Err
             ELSE IF SomeAny(a) THEN AnyOf("f")
-            ELSE IF (NumCmp(a[1], a[2]) <= 0) = (name = "min") THEN a[1] ELSE a[2]
-      [] name = "if" ->
-            IF Len(a) # 3 \/ Tag(a[1]) # "b" \/ Tag(a[2]) # Tag(a[3]) \/ Tag(a[2]) \notin {"f", "i", "s", "b", "r", "t", "d"} THEN Err
+            ELSE IF ~(ESmall(a[1]) /\ ESmall(a[2])) THEN NonErr("f")
+            ELSE (CASE name = "min" -> EMin(a[1], a[2]) [] name = "max" -> EMax(a[1], a[2]) [] name = "mod" -> EMod(a[1], a[2]))
+      [] name = "if" ->          \* strict in all three arguments; the branches must have the same type
+            IF Len(a) # 3 \/ Tag(a[1]) # "b" \/ Tag(a[2]) # Tag(a[3]) THEN Err
             ELSE IF SomeAny(a) THEN AnyOf(Tag(a[2]))      \* (an undecided argument may also be an error)
             ELSE IF a[1][2] THEN a[2] ELSE a[3]
+      [] name = "isPresent" -> IF Len(a) # 1 THEN Err ELSE IF IsAny(a[1]) THEN AnyOf("b") ELSE MkB(a[1] # MissingV)
       [] name = "strLength" -> IF ~AllTags(a, <<"s">>) THEN Err ELSE IF SomeAny(a) THEN AnyOf("i") ELSE MkI(Len(a[1][2]))
       [] name = "strSubstring" ->      \* str[start:stop]
             IF ~AllTags(a, <<"s", "i", "i">>) THEN Err
@@ -455,15 +556,6 @@ Pure(name, a) ==
                        [] name = "strTrimRight" -> TrimR(a[1][2], a[2][2]))
       [] name = "strTrimSpace" ->
             IF ~AllTags(a, <<"s">>) THEN Err ELSE IF SomeAny(a) THEN AnyOf("s") ELSE MkS(TrimR(TrimL(a[1][2], Spaces), Spaces))
-      [] name = "trunc" ->
-            IF ~AllTags(a, <<"f">>) THEN Err ELSE IF SomeAny(a) THEN AnyOf("f") ELSE <<"f", FTrunc(a[1]), 1>>
-      [] name = "mod" ->         \* math.Mod: x - y * trunc(x / y), exact on dyadic rationals; NaN for y = 0
-            IF ~AllTags(a, <<"f", "f">>) THEN Err
-            ELSE IF SomeAny(a) \/ a[2][2] = 0 THEN AnyOf("f")
-            ELSE LET xn == Abs(a[1][2]) * a[2][3]           \* |x| and |y| over the common denominator a[1][3] * a[2][3]
-                     yn == Abs(a[2][2]) * a[1][3]
-                     rn == xn % yn
-                 IN MkF(IF a[1][2] < 0 THEN -rn ELSE rn, a[1][3] * a[2][3])
       [] name \in {"day", "month", "year", "weekday"} ->      \* model time 0 is Monday 2000-01-03 00:00 UTC
             IF ~AllTags(a, <<"t">>) THEN Err
             ELSE IF SomeAny(a) \/ a[1][2] \div 1440 > 27 THEN AnyOf("i")
@@ -479,59 +571,150 @@ Pure(name, a) ==
 
 (* call with the function state of the instance: <<value, state'>> *)
 Call(name, a, fs) ==
-    CASE name = "count" -> IF a = <<>> THEN <<MkI(fs.c + 1), [fs EXCEPT !.c = @ + 1]>> ELSE <<Err, fs>>
-      [] name = "spread" ->
+    CASE name = "count" -> <<MkI(fs.c + 1), [fs EXCEPT !.c = @ + 1]>>                      \* (the function does not look at its arguments)
+      [] name = "spread" ->      \* min starts at +Inf, max at -Inf; "if x < min" / "if x > max": a NaN argument changes neither; max - min
             IF ~AllTags(a, <<"f">>) THEN <<Err, fs>>
-            ELSE IF IsAny(a[1]) \/ Len(fs.sp) = 1 THEN <<AnyOf("f"), [fs EXCEPT !.sp = <<"?">>]>>
-            ELSE LET lo == IF Len(fs.sp) = 0 \/ NumCmp(a[1], fs.sp[1]) < 0 THEN a[1] ELSE fs.sp[1]
-                     hi == IF Len(fs.sp) = 0 \/ NumCmp(a[1], fs.sp[2]) > 0 THEN a[1] ELSE fs.sp[2]
-                 IN <<MkF(hi[2] * lo[3] - lo[2] * hi[3], hi[3] * lo[3]), [fs EXCEPT !.sp = <<lo, hi>>]>>
-      [] name = "sigma" ->
+            ELSE IF IsAny(a[1]) \/ Len(fs.sp) = 1 \/ ~ESmall(a[1]) THEN <<AnyOf("f"), [fs EXCEPT !.sp = <<"?">>]>>
+            ELSE LET x == a[1]
+                     lo == IF ~IsNaN(x) /\ ECmp(x, fs.sp[1]) < 0 THEN x ELSE fs.sp[1]
+                     hi == IF ~IsNaN(x) /\ ECmp(x, fs.sp[2]) > 0 THEN x ELSE fs.sp[2]
+                 IN <<ESub(hi, lo), [fs EXCEPT !.sp = <<lo, hi>>]>>
+      [] name = "sigma" ->       \* running mean/variance (Welford): 0 for the first value and while all values are equal; NaN from the
+                                 \* second value on once a NaN or an infinity is in the history; else some float
             IF ~AllTags(a, <<"f">>) THEN <<Err, fs>>
-            ELSE <<IF fs.sg = <<>> /\ ~IsAny(a[1]) THEN <<"f", 0, 1>> ELSE AnyOf("f"), [fs EXCEPT !.sg = Append(@, a[1])]>>
+            ELSE LET h == Append(fs.sg, a[1]) IN
+                 <<IF \E i \in DOMAIN h : IsAny(h[i]) THEN AnyOf("f")
+                   ELSE IF Len(h) = 1 THEN PZero
+                   ELSE IF \E i \in DOMAIN h : IsNaN(h[i]) \/ IsInf(h[i]) THEN NaN
+                   ELSE IF \A i \in DOMAIN h : ECmp(h[i], h[1]) = 0 THEN PZero
+                   ELSE NonErr("f"), [fs EXCEPT !.sg = h]>>
       [] OTHER -> <<Pure(name, a), fs>>
+
+(* ---------------- static typing ---------------- *)
+(* Static typing as far as it is sound for every scope: the type every successful evaluation *)
+(* of n has, "inv" when that depends on the scope.                                            *)
+RECURSIVE ConstType(_)
+ConstType(n) ==
+    CASE n[1] = "L" -> n[2][1]
+      [] n[1] = "U" -> IF n[2] = "!" THEN "b" ELSE ConstType(n[3])
+      [] n[1] = "X" -> ConstType(n[2])
+      [] n[1] = "B" -> IF n[2] \in Comp \cup Logic THEN "b"
+                       ELSE LET l == ConstType(n[3])  r == ConstType(n[4]) IN
+                            IF l = "inv" \/ r = "inv" THEN "inv" ELSE BinType(n[2], l, r)
+      [] OTHER -> "inv"
+(* n can never be evaluated successfully: it holds an operator applied to operands whose      *)
+(* types are known and wrong.  Only such expressions may be refused at compile time.          *)
+RECURSIVE MustErr(_)
+MustErr(n) ==
+    CASE n[1] \in {"L", "R"} -> FALSE
+      [] n[1] = "U" -> MustErr(n[3]) \/ (LET t == ConstType(n[3]) IN
+                           t # "inv" /\ (IF n[2] = "!" THEN t # "b" ELSE t \notin {"i", "f", "d"}))
+      [] n[1] = "X" -> MustErr(n[2])
+      [] n[1] = "B" -> MustErr(n[3]) \/ MustErr(n[4]) \/
+                       (LET l == ConstType(n[3])  r == ConstType(n[4]) IN
+                        l # "inv" /\ r # "inv" /\ BinType(n[2], l, r) = "inv")
+      [] n[1] = "F" -> \E i \in DOMAIN n[3] : MustErr(n[3][i])
+
+(* signature check of the modelled built-ins: result type or "err" *)
+SigType(name, ts) ==
+    LET one(S, t) == IF Len(ts) = 1 /\ ts[1] \in S THEN t ELSE "err" IN
+    CASE name = "int" -> one({"b", "s", "i", "f"}, "i")
+      [] name = "float" -> one({"b", "s", "i", "f"}, "f")
+      [] name = "bool" -> one({"b", "s", "i", "f"}, "b")
+      [] name = "string" -> one({"b", "s", "i", "f", "d"}, "s")
+      [] name = "duration" -> IF ts = <<"d">> \/ (Len(ts) = 2 /\ ts[1] \in {"i", "f", "s"} /\ ts[2] = "d") THEN "d" ELSE "err"
+      [] name \in {"abs", "floor", "ceil", "trunc", "sqrt", "log", "spread", "sigma"} -> IF ts = <<"f">> THEN "f" ELSE "err"
+      [] name \in {"min", "max"} -> IF ts = <<"f", "f">> THEN "f" ELSE "err"
+      [] name = "if" -> IF Len(ts) = 3 /\ ts[1] = "b" /\ ts[2] = ts[3] /\ ts[2] \in {"f", "i", "s", "b", "r", "t", "d"} THEN ts[2] ELSE "err"
+      [] name = "isPresent" -> one({"m", "b", "s", "i", "f"}, "b")
+      [] name = "strLength" -> IF ts = <<"s">> THEN "i" ELSE "err"
+      [] name = "strSubstring" -> IF ts = <<"s", "i", "i">> THEN "s" ELSE "err"
+      [] name \in {"strContains", "strHasPrefix", "strHasSuffix"} -> IF ts = <<"s", "s">> THEN "b" ELSE "err"
+      [] name \in {"strIndex", "strLastIndex", "strCount", "strIndexAny", "strLastIndexAny"} -> IF ts = <<"s", "s">> THEN "i" ELSE "err"
+      [] name = "strContainsAny" -> IF ts = <<"s", "s">> THEN "b" ELSE "err"
+      [] name \in {"strTrim", "strTrimLeft", "strTrimRight"} -> IF ts = <<"s", "s">> THEN "s" ELSE "err"
+      [] name = "strTrimSpace" -> IF ts = <<"s">> THEN "s" ELSE "err"
+      [] name = "mod" -> IF ts = <<"f", "f">> THEN "f" ELSE "err"
+      [] name \in {"day", "month", "year", "weekday"} -> IF ts = <<"t">> THEN "i" ELSE "err"
+      [] name \in {"strToUpper", "strToLower"} -> IF ts = <<"s">> THEN "s" ELSE "err"
+      [] name \in {"strTrimPrefix", "strTrimSuffix"} -> IF ts = <<"s", "s">> THEN "s" ELSE "err"
+      [] name \in {"minute", "hour"} -> IF ts = <<"t">> THEN "i" ELSE "err"
+      [] name = "count" -> IF ts = <<>> THEN "i" ELSE "err"
+      [] OTHER -> "err"
+
+
+
+(* Type(scope): the type of n under the types the scope gives its references, "err" when an     *)
+(* operator or a call is applied to types it is not defined for.  Comparison and logical nodes  *)
+(* are boolean whatever their operands are (those are checked when the node is evaluated).      *)
+RECURSIVE NType(_, _)
+NType(n, sc) ==
+    CASE n[1] = "L" -> n[2][1]
+      [] n[1] = "R" -> IF n[2] \in DOMAIN sc THEN Tag(sc[n[2]]) ELSE "err"
+      [] n[1] = "X" -> IF ConstType(n) # "inv" THEN ConstType(n) ELSE NType(n[2], sc)
+      [] n[1] = "U" -> IF ConstType(n) # "inv" THEN ConstType(n) ELSE NType(n[3], sc)
+      [] n[1] = "B" -> IF ConstType(n) # "inv" THEN ConstType(n)
+                       ELSE LET l == NType(n[3], sc) IN
+                            IF l = "err" THEN "err"
+                            ELSE LET rr == NType(n[4], sc) IN
+                                 IF rr = "err" \/ BinType(n[2], l, rr) = "inv" THEN "err" ELSE BinType(n[2], l, rr)
+      [] n[1] = "F" -> LET ts == [i \in DOMAIN n[3] |-> NType(n[3][i], sc)] IN
+                       IF \E i \in DOMAIN ts : ts[i] = "err" THEN "err" ELSE SigType(n[2], <<>> \o ts)
 
 (* ---------------- evaluation ---------------- *)
 Lookup(sc, name) == IF name \in DOMAIN sc THEN sc[name] ELSE Err
 (* value of a reference used as an operand: a missing or undefined name is an error *)
 RefVal(sc, name) == LET v == Lookup(sc, name) IN IF v = MissingV THEN Err ELSE v
 
-(* The function state st maps a bucket (<<>> = the expression itself, or the path of a nested *)
-(* lambda node) to the state of its stateful functions.  Eval returns <<value, st'>>; on an   *)
-(* error st' holds the effects of the calls made before the error was met.                    *)
-RECURSIVE Eval(_, _, _, _, _), EvalArgs(_, _, _, _, _, _, _)
-Eval(n, p, sc, st, bk) ==
+(* The order of evaluation is part of the semantics (it is observable through the stateful functions):     *)
+(*  - a binary operator first checks the types of BOTH operands (no evaluation) and is an error for the    *)
+(*    point when the operator is not defined for them (also when the left operand would have decided an    *)
+(*    AND/OR); then the LEFT operand is evaluated, then - unless the left one was an error or decides an   *)
+(*    AND/OR - the RIGHT one: for every operator and every pair of operand types;                          *)
+(*  - a unary operator and a nested lambda check their type before evaluating their operand; a typed call  *)
+(*    (EvalInt ..) on them for another type is an error without evaluating anything;                       *)
+(*  - the arguments of a call are typed and evaluated one after the other from the left (a missing         *)
+(*    reference is passed on as the missing value), the first error ends the call; then the function runs. *)
+(* The function state st maps a bucket (<<>> = the expression itself, or path \o <<0>> for a nested lambda *)
+(* at path) to the state of its stateful functions.  Eval returns <<value, st'>>; on an error st' holds    *)
+(* exactly the effects of the calls made before the error was met.  want = the type a typed API call asks  *)
+(* of the root ("*" = whatever it has).                                                                    *)
+RECURSIVE Eval(_, _, _, _, _, _), EvalArgs(_, _, _, _, _, _, _)
+Eval(n, p, sc, st, bk, want) ==
     CASE n[1] = "L" -> <<n[2], st>>
       [] n[1] = "R" -> <<RefVal(sc, n[2]), st>>
-      [] n[1] = "U" -> LET r == Eval(n[3], p \o <<1>>, sc, st, bk) IN <<Un(n[2], r[1]), r[2]>>
-      [] n[1] = "X" -> Eval(n[2], p \o <<1>>, sc, st, p \o <<0>>)      \* its own bucket of function state
+      [] n[1] \in {"U", "X"} ->
+            LET t == NType(n, sc) IN
+            IF t = "err" \/ (want # "*" /\ t # want) THEN <<Err, st>>
+            ELSE IF n[1] = "U" /\ n[2] = "-" /\ t \notin {"i", "f", "d"} THEN <<Err, st>>     \* minus over another type: nothing is evaluated
+            ELSE IF n[1] = "X" /\ t = "t" THEN <<Err, st>>                                 \* a nested lambda cannot yield a time
+            ELSE IF n[1] = "X" THEN Eval(n[2], p \o <<1>>, sc, st, p \o <<0>>, "*")     \* its own bucket of function state
+            ELSE LET r == Eval(n[3], p \o <<1>>, sc, st, bk, "*") IN <<Un(n[2], r[1]), r[2]>>
       [] n[1] = "B" ->
-            LET l == Eval(n[3], p \o <<1>>, sc, st, bk) IN
-            IF IsErr(l[1]) THEN l
-            ELSE IF n[2] \in Logic /\ Tag(l[1]) # "b" THEN <<Err, l[2]>>
-            ELSE IF n[2] \in Logic /\ IsAny(l[1])                   \* undecided left operand: it may or may not short-circuit
-                 THEN <<AnyOf("b"), Eval(n[4], p \o <<2>>, sc, l[2], bk)[2]>>
-            ELSE IF n[2] = "AND" /\ l[1] = False THEN l              \* short circuit: the right side is not evaluated
-            ELSE IF n[2] = "OR" /\ l[1] = True THEN l
-            ELSE LET r == Eval(n[4], p \o <<2>>, sc, l[2], bk) IN
-                 IF IsErr(r[1]) THEN r ELSE <<Bin(n[2], l[1], r[1]), r[2]>>
+            LET lt == NType(n[3], sc)
+                rt == NType(n[4], sc)
+            IN IF lt = "err" \/ rt = "err" \/ BinType(n[2], lt, rt) = "inv" THEN <<Err, st>>
+               ELSE LET l == Eval(n[3], p \o <<1>>, sc, st, bk, "*") IN
+                    IF IsErr(l[1]) THEN l
+                    ELSE IF n[2] \in Logic /\ Tag(l[1]) # "b" THEN <<Err, l[2]>>
+                    ELSE IF n[2] \in Logic /\ IsAny(l[1])                   \* undecided left operand: it may or may not short-circuit
+                         THEN <<AnyOf("b"), Eval(n[4], p \o <<2>>, sc, l[2], bk, "*")[2]>>
+                    ELSE IF n[2] = "AND" /\ l[1] = False THEN l              \* short circuit: the right side is not evaluated
+                    ELSE IF n[2] = "OR" /\ l[1] = True THEN l
+                    ELSE LET r == Eval(n[4], p \o <<2>>, sc, l[2], bk, "*") IN
+                         IF IsErr(r[1]) THEN r ELSE <<Bin(n[2], l[1], r[1]), r[2]>>
       [] n[1] = "F" ->
-            IF n[2] = "isPresent" /\ Len(n[3]) = 1
-            THEN IF n[3][1][1] = "R"
-                 THEN LET v == Lookup(sc, n[3][1][2]) IN
-                      <<IF IsErr(v) THEN Err
-                        ELSE IF v = MissingV THEN False
-                        ELSE IF Tag(v) \in {"b", "s", "i", "f"} THEN True ELSE AnyOf("b"), st>>
-                 ELSE LET r == Eval(n[3][1], p \o <<1>>, sc, st, bk) IN
-                      <<IF IsErr(r[1]) \/ IsAny(r[1]) \/ Tag(r[1]) \notin {"b", "s", "i", "f"} THEN AnyOf("b") ELSE True, r[2]>>
-            ELSE LET a == EvalArgs(n[3], 1, p, sc, st, bk, <<>>) IN
-                 IF ~a.ok THEN <<Err, a.st>>
-                 ELSE LET c == Call(n[2], a.vs, a.st[bk]) IN <<c[1], [a.st EXCEPT ![bk] = c[2]]>>
-EvalArgs(args, i, p, sc, st, bk, acc) ==       \* arguments are evaluated left to right; the first error ends the call
+            LET a == EvalArgs(n[3], 1, p, sc, st, bk, <<>>) IN
+            IF ~a.ok THEN <<Err, a.st>>
+            ELSE LET c == Call(n[2], a.vs, a.st[bk]) IN <<c[1], [a.st EXCEPT ![bk] = c[2]]>>
+EvalArgs(args, i, p, sc, st, bk, acc) ==
     IF i > Len(args) THEN [ok |-> TRUE, vs |-> acc, st |-> st]
-    ELSE LET r == Eval(args[i], p \o <<i>>, sc, st, bk) IN
-         IF IsErr(r[1]) THEN [ok |-> FALSE, vs |-> acc, st |-> r[2]]
-         ELSE EvalArgs(args, i + 1, p, sc, r[2], bk, Append(acc, r[1]))
+    ELSE LET t == NType(args[i], sc) IN
+         IF t \in {"err", "inv"} THEN [ok |-> FALSE, vs |-> acc, st |-> st]
+         ELSE IF t = "m" THEN EvalArgs(args, i + 1, p, sc, st, bk, Append(acc, MissingV))
+         ELSE LET r == Eval(args[i], p \o <<i>>, sc, st, bk, "*") IN
+              IF IsErr(r[1]) THEN [ok |-> FALSE, vs |-> acc, st |-> r[2]]
+              ELSE EvalArgs(args, i + 1, p, sc, r[2], bk, Append(acc, r[1]))
 
 (* The same evaluation but not stopping at errors and without short circuit: the most calls of     *)
 (* stateful functions an evaluation of n can make.  Nothing is promised about the function state   *)
@@ -578,7 +761,6 @@ LambdaPaths(n, p) ==
       [] n[1] = "B" -> LambdaPaths(n[3], p \o <<1>>) \cup LambdaPaths(n[4], p \o <<2>>)
       [] n[1] = "F" -> UNION { LambdaPaths(n[3][i], p \o <<i>>) : i \in DOMAIN n[3] }
 St0(ast) == [b \in {<<>>} \cup LambdaPaths(ast, <<>>) |-> FS0]
-EvalTop(ast, sc, st) == Eval(ast, <<>>, sc, st, <<>>)
 
 RECURSIVE HasStateful(_)
 HasStateful(n) ==
@@ -597,109 +779,25 @@ RefNames(n) ==
       [] n[1] = "F" -> UNION { RefNames(n[3][i]) : i \in DOMAIN n[3] }
 
 (* ---------------- what the API calls must return ---------------- *)
-(* Static typing as far as it is sound for every scope: the type every successful evaluation *)
-(* of n has, "inv" when that depends on the scope.                                            *)
-RECURSIVE ConstType(_)
-ConstType(n) ==
-    CASE n[1] = "L" -> n[2][1]
-      [] n[1] = "U" -> IF n[2] = "!" THEN "b" ELSE ConstType(n[3])
-      [] n[1] = "X" -> ConstType(n[2])
-      [] n[1] = "B" -> IF n[2] \in Comp \cup Logic THEN "b"
-                       ELSE LET l == ConstType(n[3])  r == ConstType(n[4]) IN
-                            IF l = "inv" \/ r = "inv" THEN "inv" ELSE BinType(n[2], l, r)
-      [] OTHER -> "inv"
-(* n can never be evaluated successfully: it holds an operator applied to operands whose      *)
-(* types are known and wrong.  Only such expressions may be refused at compile time.          *)
-RECURSIVE MustErr(_)
-MustErr(n) ==
-    CASE n[1] \in {"L", "R"} -> FALSE
-      [] n[1] = "U" -> MustErr(n[3]) \/ (LET t == ConstType(n[3]) IN
-                           t # "inv" /\ (IF n[2] = "!" THEN t # "b" ELSE t \notin {"i", "f", "d"}))
-      [] n[1] = "X" -> MustErr(n[2])
-      [] n[1] = "B" -> MustErr(n[3]) \/ MustErr(n[4]) \/
-                       (LET l == ConstType(n[3])  r == ConstType(n[4]) IN
-                        l # "inv" /\ r # "inv" /\ BinType(n[2], l, r) = "inv")
-      [] n[1] = "F" -> \E i \in DOMAIN n[3] : MustErr(n[3][i])
-
-(* signature check of the modelled built-ins: result type or "err" *)
-SigType(name, ts) ==
-    LET one(S, t) == IF Len(ts) = 1 /\ ts[1] \in S THEN t ELSE "err" IN
-    CASE name = "int" -> one({"b", "s", "i", "f"}, "i")
-      [] name = "float" -> one({"b", "s", "i", "f"}, "f")
-      [] name = "bool" -> one({"b", "s", "i", "f"}, "b")
-      [] name = "string" -> one({"b", "s", "i", "f", "d"}, "s")
-      [] name = "duration" -> IF ts = <<"d">> \/ (Len(ts) = 2 /\ ts[1] \in {"i", "f", "s"} /\ ts[2] = "d") THEN "d" ELSE "err"
-      [] name \in {"abs", "floor", "ceil", "trunc", "spread", "sigma"} -> IF ts = <<"f">> THEN "f" ELSE "err"
-      [] name \in {"min", "max"} -> IF ts = <<"f", "f">> THEN "f" ELSE "err"
-      [] name = "if" -> IF Len(ts) = 3 /\ ts[1] = "b" /\ ts[2] = ts[3] /\ ts[2] \in {"f", "i", "s", "b", "r", "t", "d"} THEN ts[2] ELSE "err"
-      [] name = "isPresent" -> one({"m", "b", "s", "i", "f"}, "b")
-      [] name = "strLength" -> IF ts = <<"s">> THEN "i" ELSE "err"
-      [] name = "strSubstring" -> IF ts = <<"s", "i", "i">> THEN "s" ELSE "err"
-      [] name \in {"strContains", "strHasPrefix", "strHasSuffix"} -> IF ts = <<"s", "s">> THEN "b" ELSE "err"
-      [] name \in {"strIndex", "strLastIndex", "strCount", "strIndexAny", "strLastIndexAny"} -> IF ts = <<"s", "s">> THEN "i" ELSE "err"
-      [] name = "strContainsAny" -> IF ts = <<"s", "s">> THEN "b" ELSE "err"
-      [] name \in {"strTrim", "strTrimLeft", "strTrimRight"} -> IF ts = <<"s", "s">> THEN "s" ELSE "err"
-      [] name = "strTrimSpace" -> IF ts = <<"s">> THEN "s" ELSE "err"
-      [] name = "mod" -> IF ts = <<"f", "f">> THEN "f" ELSE "err"
-      [] name \in {"day", "month", "year", "weekday"} -> IF ts = <<"t">> THEN "i" ELSE "err"
-      [] name \in {"strToUpper", "strToLower"} -> IF ts = <<"s">> THEN "s" ELSE "err"
-      [] name \in {"strTrimPrefix", "strTrimSuffix"} -> IF ts = <<"s", "s">> THEN "s" ELSE "err"
-      [] name \in {"minute", "hour"} -> IF ts = <<"t">> THEN "i" ELSE "err"
-      [] name = "count" -> IF ts = <<>> THEN "i" ELSE "err"
-      [] OTHER -> "err"
-
-
-(* Strict static typing of the whole expression under the types the scope gives its references: *)
-(* "err" when some operator or call - evaluated or not - is applied to operand types it is not   *)
-(* defined for.  An expression that does not type-check for a point may be reported as an error  *)
-(* even where short-circuit evaluation would not have touched the ill-typed operand.             *)
-RECURSIVE TypeStrict(_, _)
-TypeStrict(n, sc) ==
-    CASE n[1] = "L" -> n[2][1]
-      [] n[1] = "R" -> IF n[2] \in DOMAIN sc THEN Tag(sc[n[2]]) ELSE "err"
-      [] n[1] = "X" -> TypeStrict(n[2], sc)
-      [] n[1] = "U" -> LET t == TypeStrict(n[3], sc) IN
-                       IF n[2] = "!" THEN (IF t = "b" THEN "b" ELSE "err")
-                       ELSE IF t \in {"i", "f", "d"} THEN t ELSE "err"
-      [] n[1] = "B" -> LET l == TypeStrict(n[3], sc)  r == TypeStrict(n[4], sc) IN
-                       IF l = "err" \/ r = "err" \/ BinType(n[2], l, r) = "inv" THEN "err" ELSE BinType(n[2], l, r)
-      [] n[1] = "F" -> LET ts == [i \in DOMAIN n[3] |-> TypeStrict(n[3][i], sc)] IN
-                       IF \E i \in DOMAIN ts : ts[i] = "err" THEN "err" ELSE SigType(n[2], ts)
-
-(* The outcome of one API call.  mode: "E" Eval | "T" Type | "I","F","S","B","D" typed Eval | *)
-(* "P" EvalPredicate.  v = the reference value (EvalTop(...)[1]).                             *)
+(* One API call on an expression instance whose function state is st: <<outcome, st'>>.                      *)
+(* mode: "E" Eval | "T" Type | "I","F","S","B","D" typed Eval | "P" EvalPredicate.                            *)
+(* outcome: a value, Err, or for Type <<"T", type>>.  Eval and EvalPredicate type the whole expression first  *)
+(* (an ill-typed expression is an error before anything is evaluated); Eval cannot return a time, a regex or  *)
+(* the missing value; the typed calls evaluate without asking Type and are an error when the value has        *)
+(* another type (operators and calls have been evaluated by then, unary/lambda/reference/literal roots not).   *)
 ModeTag == [I |-> "i", F |-> "f", S |-> "s", B |-> "b", D |-> "d", P |-> "b"]
-(* does the logged outcome `got` (a value, <<"E", class>> or for Type <<"T", tag>>) agree with v? *)
-ValueAgrees(got, v) ==
-    IF IsErr(v) THEN IsErr(got)
-    ELSE IF v[1] = "!" THEN ~IsErr(got) /\ got[1] # "T" /\ Tag(got) = v[2]      \* some value of the type, not an error
-    ELSE IF IsAny(v) THEN IsErr(got) \/ Tag(got) = v[2]
-    ELSE got[1] = v[1] /\ got = v
-OutcomeAgrees0(mode, got, v) ==
-    CASE mode = "E" ->
-            (* a time or regex result cannot be returned by Eval: error or the value *)
-            IF ~IsErr(v) /\ Tag(v) \in {"t", "r"} THEN IsErr(got) \/ ValueAgrees(got, v)
-            ELSE ValueAgrees(got, v)
-      [] mode = "T" ->
-            (* Type of an expression that evaluates is the type of its value; for one that does  *)
-            (* not, the documentation promises nothing about Type                                 *)
-            IsErr(v) \/ (v[1] = "?" /\ IsErr(got)) \/ (got[1] = "T" /\ got = <<"T", Tag(v)>>)
-      [] OTHER ->
-            IF ~IsErr(v) /\ Tag(v) # ModeTag[mode] THEN IsErr(got) ELSE ValueAgrees(got, v)
-(* ill = the expression does not type-check strictly under this scope (TypeStrict = "err") *)
-(* A typed call made without asking Type first skips the signature check of the built-ins (the    *)
-(* functions themselves accept some argument lists their signatures do not list, e.g.               *)
-(* duration(1s, x), int(1s)): for an ill-typed expression with a call its outcome is not decided     *)
-(* beyond the requested type.                                                                         *)
-RECURSIVE HasCall(_)
-HasCall(n) ==
-    CASE n[1] \in {"L", "R"} -> FALSE
-      [] n[1] = "U" -> HasCall(n[3])
-      [] n[1] = "X" -> HasCall(n[2])
-      [] n[1] = "B" -> HasCall(n[3]) \/ HasCall(n[4])
-      [] n[1] = "F" -> TRUE
-OutcomeAgrees(mode, got, v, ill, hasCall) ==
-    \/ OutcomeAgrees0(mode, got, v)
-    \/ ill /\ mode # "T" /\ IsErr(got)
-    \/ ill /\ hasCall /\ mode \in {"I", "F", "S", "B", "D"} /\ Tag(got) = ModeTag[mode]
+RefApi(mode, ast, sc, st) ==
+    LET t == NType(ast, sc) IN
+    IF mode = "T" THEN <<IF t = "err" THEN Err ELSE <<"T", t>>, st>>
+    ELSE IF mode \in {"E", "P"} /\ (t = "err" \/ (mode = "E" /\ t \notin {"i", "f", "s", "b", "d"})) THEN <<Err, st>>
+    ELSE LET want == IF mode = "E" THEN t ELSE ModeTag[mode]
+             r == Eval(ast, <<>>, sc, st, <<>>, want)
+         IN IF ~IsErr(r[1]) /\ Tag(r[1]) # want THEN <<Err, r[2]>> ELSE r
+(* does the logged outcome `got` (a value, <<"E", class>> or <<"T", tag>>) agree with the reference outcome o? *)
+OutcomeAgrees(got, o) ==
+    IF IsErr(o) THEN IsErr(got)
+    ELSE IF o[1] = "T" THEN got[1] = "T" /\ got = o
+    ELSE IF o[1] = "!" THEN ~IsErr(got) /\ got[1] # "T" /\ Tag(got) = o[2]      \* some value of the type, not an error
+    ELSE IF o[1] = "?" THEN IsErr(got) \/ (got[1] # "T" /\ Tag(got) = o[2])     \* some value of the type, or an error
+    ELSE got[1] = o[1] /\ got = o
 =============================================================================
